@@ -162,3 +162,11 @@ PLANS["C13"] = dict(kind="func", stages=[calc_stage("pods"), calc_stage("nodes")
                                  [D("mix", faults=5, fine=True), D("up", faults=5)],
                                  [D("mix", n=60, steps=100, procs=8, faults=5, fine=True), D("up", n=60, steps=100, procs=8, faults=5)],
                                  "see function level", ["C13:totals-checked", "C13:percent-checked", "C13:several-pods"]))
+
+PLANS["C14"] = dict(kind="func", stages=[dict(gen=dict(quick=[("AttrGrid.tla", "AttrGrid.cfg", {})], thorough=[("AttrGrid.tla", "AttrGrid.cfg", {"Tier": '"thorough"'})]),
+                                              cmd="attrib", trace="TraceAttr", max_cases=dict(quick=None, thorough=120000))],
+                    rule="cases: every pod shape of the universe (nodeSelector absent / other key / other value / match x affinity nil / empty / partial / 1-2 terms of 1-2 expressions over "
+                         "{In, NotIn, Exists, ...} x owner kinds x static annotation x pod (anti-)affinity) and every node label map, through the real filter constructors and the real filtered listers; "
+                         "every case is a distinct input",
+                    required_facts=["C14:in-group", "C14:not-in-group", "C14:in-group-by-affinity", "C14:in-default", "C14:daemonset", "C14:two-terms", "C14:two-expressions", "C14:node"],
+                    assumptions=FUNC_ASSUMPTIONS + ["shapes the statement does not decide for the default group (an affinity object without any rule) admit either verdict"])
